@@ -15,7 +15,7 @@ impl Prop for C01 {
     }
     fn strategy(tier: Tier) -> BoxedStrategy<History> {
         let n = if tier == Tier::Quick { 40 } else { 120 };
-        history::history(&[(3, ElemKind::Tr), (2, ElemKind::U32), (1, ElemKind::Zs)], 0.15, n).boxed()
+        history::history(&[(3, ElemKind::Tr), (2, ElemKind::U32), (1, ElemKind::Zs)], 0.15, n, 0.0).boxed()
     }
     fn random_cases(tier: Tier) -> u64 {
         if tier == Tier::Quick { 200_000 } else { 3_000_000 }
@@ -43,7 +43,7 @@ impl Prop for C05 {
     }
     fn strategy(tier: Tier) -> BoxedStrategy<History> {
         let n = if tier == Tier::Quick { 40 } else { 120 };
-        history::history(&[(3, ElemKind::Tr), (2, ElemKind::Bx), (2, ElemKind::Zs)], 0.8, n).boxed()
+        history::history(&[(3, ElemKind::Tr), (2, ElemKind::Bx), (2, ElemKind::Zs)], 0.8, n, 0.04).boxed()
     }
     fn random_cases(tier: Tier) -> u64 {
         if tier == Tier::Quick { 200_000 } else { 3_000_000 }
@@ -58,6 +58,6 @@ impl Prop for C05 {
         history::sanitize(case)
     }
     fn essential_classes() -> &'static [&'static str] {
-        &["panic-free-history", "drain-partial", "conversion", "Zs", "Bx", "Tr"]
+        &["panic-free-history", "drain-partial", "conversion", "Zs", "Bx", "Tr", "caller-code-fault-fired"]
     }
 }
